@@ -52,6 +52,9 @@ def cases(draw, tier="quick"):
     elif draw(st.sampled_from([False, False, True])):
         # a state given as a list of Feature objects: a rolling feature (saved or not) and one without event callbacks
         c["state"] = ["features", draw(st.booleans())]
+    elif draw(st.sampled_from([False, False, True])):
+        # the library's own features (held weights, mid prices), transformers left unfitted
+        c["state"] = ["library", -50.0, 50.0, False]
     # folds / warm-up / markov reset
     if draw(st.sampled_from([False, False, True])):
         g = E.grid_of(c)
@@ -59,8 +62,8 @@ def cases(draw, tier="quick"):
         c["fold"] = [g[a] - draw(st.sampled_from([0, 1])), g[-1] + draw(st.sampled_from([0, 1]))]
         c["markov"] = draw(st.sampled_from([False, False, True])) and c.get("state", ["rec"])[0] == "rec"
         c["warmup_us"] = draw(st.sampled_from([None, None, 3600 * US, 10 * 86400 * US]))
-        if c.get("state", ["rec"])[0] == "window":
-            c["warmup_us"] = None     # the windowed State needs its first row replayed (it cannot parse an empty queue)
+        if c.get("state", ["rec"])[0] in ("window", "library"):
+            c["warmup_us"] = None     # the windowed State needs its first row replayed (it cannot parse an empty queue); prices need a quote
         nsteps = len(g) - 1 - a
         cut = min(cut, max(0, nsteps - 1))
     # custom events may be loaded from a table (add_custom_events), possibly with completely empty rows
@@ -202,6 +205,8 @@ def run(case):
         res.tag("delay>0")
     if case.get("state", ["rec"])[0] == "window":
         res.tag("windowed-observation-state")
+    if case.get("state", ["rec"])[0] == "library":
+        res.tag("state-made-of-library-features")
     if case.get("state", ["rec"])[0] == "features":
         res.tag("state-given-as-features" + ("" if case["state"][1] else "-unsaved"))
     if case.get("fold"):
